@@ -62,6 +62,21 @@ func init() {
 			b := x.cellTerms(a[0].(Agg))
 			return x.hashToAgg(x.ts.UF(fmt.Sprintf("S256_%d", len(b)), 256, x.ts.Concat(b...)))
 		},
+		vhPath + ".GenuineID": func(x *Exec, fv FuncV, a []Value) Value {
+			// ID of an element created by an earlier block: an ideal-hash output of
+			// an unknown pre-image, from a family disjoint from every hash derived
+			// in the current step (no hash cycles / fixed points)
+			name := x.cstr(a[0])
+			seed := x.fresh(name, 64)
+			// one family member per element kind (the kind is the part of the
+			// name after the last '.'; e.g. "t.supp.sc0" -> "sc")
+			kind := name
+			if i := strings.LastIndex(name, "."); i >= 0 {
+				kind = name[i+1:]
+			}
+			kind = strings.TrimRight(kind, "0123456789")
+			return x.hashToAgg(x.ts.UF("H_gen_"+kind, 256, seed))
+		},
 		vhPath + ".Note":        func(x *Exec, fv FuncV, a []Value) Value { x.event("note", x.cstr(a[0])); return nil },
 		vhPath + ".TrackWrites": vhTrackWrites,
 		vhPath + ".MarkCaller":  vhMarkCaller,
@@ -214,6 +229,20 @@ func init() {
 }
 
 func nop(x *Exec, fv FuncV, a []Value) Value { return nil }
+
+// callBody runs the real body of an intercepted function.
+func (x *Exec) callBody(fv FuncV, a []Value) Value {
+	name := fv.Fn.String()
+	saved := intrinsics[name]
+	delete(x.skipIntr, name)
+	if x.skipIntr == nil {
+		x.skipIntr = map[string]bool{}
+	}
+	x.skipIntr[name] = true
+	defer func() { delete(x.skipIntr, name) }()
+	_ = saved
+	return x.call(fv, a, nil)
+}
 
 func (x *Exec) cstr(v Value) string {
 	s, ok := v.(StrV)
@@ -425,6 +454,9 @@ func (x *Exec) hashToAgg(h *Term) Agg {
 // hashAxioms returns the per-application axioms for the ideal hash.
 func (x *Exec) ufAxioms(t *Term) []*Term {
 	ts := x.ts
+	if strings.HasPrefix(t.Name, "H_gen_") {
+		return nil
+	}
 	if strings.HasPrefix(t.Name, "H_") || strings.HasPrefix(t.Name, "S256_") {
 		var ax []*Term
 		pre := "H"
@@ -433,11 +465,8 @@ func (x *Exec) ufAxioms(t *Term) []*Term {
 		}
 		var n int
 		fmt.Sscanf(t.Name[len(pre)+1:], "%d", &n)
-		if n > 0 {
-			inv := ts.UF(fmt.Sprintf("%sinv_%d", pre, n), 8*n, t)
-			ax = append(ax, ts.Eq(inv, t.Args[0]))
-		}
-		ax = append(ax, ts.Eq(ts.UF(pre+"len", 32, t), ts.ConstU(32, uint64(n))))
+		// injectivity and range disjointness are emitted pairwise by the solver
+		// layer (see Solver.define); nothing per application here
 		if pre == "H" && (n == 0 || t.Args[0].IsConst()) {
 			var data []byte
 			if n > 0 {
@@ -450,10 +479,8 @@ func (x *Exec) ufAxioms(t *Term) []*Term {
 	}
 	if strings.HasPrefix(t.Name, "SIG_") {
 		n := t.Args[1].W
-		return []*Term{
-			ts.Eq(ts.UF("SIGmsg_"+t.Name[4:], n, t), t.Args[1]),
-			ts.Eq(ts.UF("SIGpk_"+t.Name[4:], 256, t), t.Args[0]),
-		}
+		_ = n
+		return nil
 	}
 	if t.Name == "mul64hi" || t.Name == "mul64lo" {
 		return x.mulAxioms(t)
@@ -527,6 +554,13 @@ func (x *Exec) nativeInvoke(n *Native, method string, args []Value) Value {
 			return ts.ConstU(64, 32)
 		case "BlockSize":
 			return ts.ConstU(64, 128)
+		}
+	case "wraperr":
+		switch method {
+		case "Error":
+			return StrV{S: n.Data.(*wrapErr).tag}
+		case "Unwrap":
+			return n.Data.(*wrapErr).inner
 		}
 	case "error":
 		switch method {
@@ -789,6 +823,14 @@ func vhAssert(x *Exec, fv FuncV, a []Value) Value {
 }
 
 func vhReach(x *Exec, fv FuncV, a []Value) Value {
+	if x.pcUnchecked {
+		// under lazy forking the path condition may be infeasible
+		r := x.check()
+		if r == Unsat {
+			x.abort("infeasible", "path condition infeasible at Reach")
+		}
+		x.pcUnchecked = false
+	}
 	x.res.Reached[x.cstr(a[0])]++
 	return nil
 }
@@ -1125,5 +1167,99 @@ func (x *Exec) deepEq(a, b []Value, t types.Type) *Term {
 }
 
 func init() {
+	// summaries used by the validator harnesses (each is a stated cut)
+	intrinsics["(go.sia.tech/core/consensus.State).TransactionWeight"] = func(x *Exec, fv FuncV, a []Value) Value {
+		if x.cfg.Params["weight_uf"] != 1 {
+			return x.callBody(fv, a)
+		}
+		x.weightCtr++
+		return x.fresh(fmt.Sprintf("txweight#%d", x.weightCtr), 64)
+	}
+	intrinsics["(go.sia.tech/core/consensus.State).V2TransactionWeight"] = intrinsics["(go.sia.tech/core/consensus.State).TransactionWeight"]
+	intrinsics["(go.sia.tech/core/types.V1Currency).EncodeTo"] = func(x *Exec, fv FuncV, a []Value) Value {
+		if x.cfg.Params["v1cur_fixed"] != 1 {
+			return x.callBody(fv, a)
+		}
+		// fixed-width injective code: 0x10 ‖ hi (8, big endian) ‖ lo (8)
+		cur := a[0].(Agg) // Lo, Hi
+		lo, hi := cur[0].(*Term), cur[1].(*Term)
+		cells := []*Term{x.ts.ConstU(8, 16)}
+		for i := 7; i >= 0; i-- {
+			cells = append(cells, x.ts.Extract(hi, 8*i+7, 8*i))
+		}
+		for i := 7; i >= 0; i-- {
+			cells = append(cells, x.ts.Extract(lo, 8*i+7, 8*i))
+		}
+		buf := x.bytesToSlice(cells, "v1cur")
+		w := fv.Fn.Prog.ImportedPackage("go.sia.tech/core/types").Type("Encoder")
+		wr := x.prog.LookupMethod(types.NewPointer(w.Type()), w.Package().Pkg, "Write")
+		x.call(FuncV{Fn: wr}, []Value{a[1], buf}, nil)
+		return nil
+	}
+	intrinsics["(go.sia.tech/core/consensus.State).V2FileContractTax"] = func(x *Exec, fv FuncV, a []Value) Value {
+		if x.cfg.Params["tax_uf"] != 1 {
+			return x.callBody(fv, a)
+		}
+		// summary: the real Add (with its overflow panic) followed by an
+		// uninterpreted tax(sum) <= sum instead of the division by 25
+		fc := a[1].(Agg)
+		ft := fv.Fn.Signature.Params().At(0).Type().Underlying().(*types.Struct)
+		off := 0
+		var r, h Agg
+		for i := 0; i < ft.NumFields(); i++ {
+			n := x.ncells(ft.Field(i).Type())
+			if ft.Field(i).Name() == "RenterOutput" {
+				r = fc[off : off+2]
+			}
+			if ft.Field(i).Name() == "HostOutput" {
+				h = fc[off : off+2]
+			}
+			off += n
+		}
+		cur := x.prog.ImportedPackage("go.sia.tech/core/types").Type("Currency")
+		add := x.prog.LookupMethod(cur.Type(), cur.Package().Pkg, "Add")
+		sum := x.call(FuncV{Fn: add}, []Value{Agg{r[0], r[1]}, Agg{h[0], h[1]}}, nil).(Agg)
+		s128 := x.ts.Concat(sum[1].(*Term), sum[0].(*Term))
+		tax := x.ts.UF("v2tax", 128, s128)
+		x.addPC(x.ts.ULe(tax, s128))
+		return Agg{x.ts.Extract(tax, 63, 0), x.ts.Extract(tax, 127, 64)}
+	}
+	intrinsics["(go.sia.tech/core/consensus.State).StorageProofLeafIndex"] = func(x *Exec, fv FuncV, a []Value) Value {
+		if x.cfg.Params["spidx_uf"] != 1 {
+			return x.callBody(fv, a)
+		}
+		// summary: an arbitrary index below the number of 64-byte leaves (0 for an empty file)
+		fs := a[1].(*Term)
+		ts := x.ts
+		nl := ts.Add(ts.LShr(fs, ts.ConstU(64, 6)), ts.BoolToBV(ts.Not(ts.Eq(ts.Extract(fs, 5, 0), ts.ConstU(6, 0))), 64))
+		x.spCtr++
+		r := x.fresh(fmt.Sprintf("spleafindex#%d", x.spCtr), 64)
+		x.addPC(ts.Ite(ts.Eq(nl, ts.ConstU(64, 0)), ts.Eq(r, ts.ConstU(64, 0)), ts.ULt(r, nl)))
+		return r
+	}
+	intrinsics["(go.sia.tech/core/consensus.State).FileContractTax"] = func(x *Exec, fv FuncV, a []Value) Value {
+		if x.cfg.Params["tax_uf"] != 1 {
+			return x.callBody(fv, a)
+		}
+		// uninterpreted tax(payout, pre/post tax-hardfork); facts: tax <= payout
+		st := a[0].(Agg)
+		_ = st
+		fc := a[1].(Agg)
+		// FileContract.Payout is the last-but-... field: locate by type layout
+		ft := fv.Fn.Signature.Params().At(0).Type().Underlying().(*types.Struct)
+		off := 0
+		var payLo, payHi *Term
+		for i := 0; i < ft.NumFields(); i++ {
+			if ft.Field(i).Name() == "Payout" {
+				payLo, payHi = fc[off].(*Term), fc[off+1].(*Term)
+			}
+			off += x.ncells(ft.Field(i).Type())
+		}
+		pay := x.ts.Concat(payHi, payLo)
+		// era: childHeight < HardforkTax.Height (evaluated by the real helper functions is overkill; keep symbolic flag)
+		tax := x.ts.UF("v1tax", 128, pay)
+		x.addPC(x.ts.ULe(tax, pay))
+		return Agg{x.ts.Extract(tax, 63, 0), x.ts.Extract(tax, 127, 64)}
+	}
 	intrinsics[vhPath+".NoPanic"] = func(x *Exec, fv FuncV, a []Value) Value { x.cfg.NoPanic = true; return nil }
 }
